@@ -18,7 +18,8 @@ pub fn main(a: &Args) {
     match a.pos.first().map(|s| s.as_str()) {
         Some("bases") => bases_cmd(a),
         Some("run") => run(a),
-        _ => tool_error("c01 bases|run"),
+        Some("probe") => probe(a),
+        _ => tool_error("c01 bases|run|probe"),
     }
 }
 
@@ -452,6 +453,46 @@ fn apply(base: &[u8], sl: &[(usize, usize, String)], faults: &[Value], seed: u64
                 edits.push((s0, e0 - s0, v.into_bytes()));
             }
             "bomb" => return Some(bomb(f["name"].as_str()?)),
+            "xrefcut" => {
+                // the startxref block moved in front of the cross-reference section it names (the offset follows), and
+                // that section cut after `lines` lines: a reader led by a valid pointer to a section that ends at end of file
+                let kw = b"startxref";
+                let k = (0..b.len().saturating_sub(kw.len())).rev().find(|i| b[*i..].starts_with(kw))?;
+                let digits: String = b[k + kw.len()..].iter().skip_while(|c| c.is_ascii_whitespace()).take_while(|c| c.is_ascii_digit()).map(|c| *c as char).collect();
+                let sx: usize = digits.parse().ok()?;
+                if sx >= k {
+                    return None;
+                }
+                let section = &b[sx..k];
+                let lines = f["lines"].as_u64()? as usize;
+                let mut cut = 0usize;
+                let mut seen = 0usize;
+                while cut < section.len() && seen < lines {
+                    if section[cut] == b'\n' {
+                        seen += 1;
+                    }
+                    cut += 1;
+                }
+                let mut block = Vec::new();
+                for guess_digits in 1..12 {
+                    let cand = format!("startxref\n{:0w$}\n%%EOF\n", 0, w = guess_digits);
+                    let target = sx + cand.len();
+                    let real = format!("startxref\n{}\n%%EOF\n", target);
+                    if real.len() == cand.len() {
+                        block = real.into_bytes();
+                        break;
+                    }
+                }
+                let mut v = b[..sx].to_vec();
+                v.extend_from_slice(&block);
+                v.extend_from_slice(&section[..cut]);
+                match f["pad"].as_str()? {
+                    "blank" => v.extend_from_slice(b"\n\r\n  \n"),
+                    "comment" => v.extend_from_slice(b"% end\n%%EOF\n"),
+                    _ => {}
+                }
+                return Some(v);
+            }
             "keyword" => {
                 // the k-th occurrence of a structural keyword replaced by another token
                 let from = f["from"].as_str()?.as_bytes();
@@ -644,4 +685,22 @@ fn run(a: &Args) {
     }
     out.flush().ok();
     std::fs::write(&progress, "done\n").ok();
+}
+
+/// One file from disk under every preset (hand-made experiments; a hang is the caller's `timeout` to catch).
+fn probe(a: &Args) {
+    let bytes = std::fs::read(a.req("file")).unwrap_or_else(|e| tool_error(&e.to_string()));
+    let numbers: Vec<u32> = crate::c03::object_numbers(&bytes).into_iter().take(80).collect();
+    for (pname, opts) in presets() {
+        println!("{pname} ...");
+        let (b2, nums) = (bytes.clone(), numbers.clone());
+        let h = std::thread::Builder::new().stack_size(8 << 20).spawn(move || {
+            crate::alloc_reset_peak();
+            let t0 = thread_cpu_ms();
+            let r = std::panic::catch_unwind(move || navigate(b2, opts, &nums));
+            (r.unwrap_or("panic"), thread_cpu_ms() - t0, crate::alloc_peak() / 1024)
+        });
+        let (o, ms, kb) = h.ok().and_then(|h| h.join().ok()).unwrap_or(("panic", 0, 0));
+        println!("{pname}: {o} cpu_ms={ms} peak_kb={kb}");
+    }
 }
